@@ -393,8 +393,12 @@ def build_unit(unit, outdir):
             if dropped:
                 log.append("methods not extracted in this unit: " + ", ".join(dropped))
             # associated types etc. inside the block
+            inherent = emit_header is not None and " for " not in emit_header
             for c_text in _assoc_types(sf, it):
-                em.add("    " + c_text + "\n")
+                if inherent:
+                    log.append("associated type dropped (trait impl emitted as inherent impl): " + c_text)
+                else:
+                    em.add("    " + c_text + "\n")
             em.drops.append({"item": header, "file": file, "drops": log})
             em.add("}\n\n")
         elif part[0] == "macro_block":
